@@ -9,6 +9,26 @@ import vlib
 PROP = "C15"
 
 
+def heartbeat_follow_through(tier):
+    import glob
+    import os
+    from checks import c17
+    vlib.build_harness(bin=c17.BIN)
+    pats = [("c15-client60-server1", 60, 1, [], 5000), ("c15-client1-server60", 1, 60, [], 5000),
+            ("c15-client1-server0", 1, 0, [], 3500), ("c15-client0-server1", 0, 1, [], 3500),
+            ("c15-client2-server1-talks", 2, 1, c17._every("shb", 900, 4500), 5000)]
+    if tier == "thorough":
+        pats += [("c15-client3-server2", 3, 2, [], 7000), ("c15-client2-server3", 2, 3, [], 7000),
+                 ("c15-client60-server2-talks", 60, 2, c17._every("shb", 1800, 9000), 9500)]
+    sessions = [dict(id=900 + i, pattern=p, ch=ch, sh=sh, sched=sched, end=end)
+                for i, (p, ch, sh, sched, end) in enumerate(pats)]
+    tdir = vlib.outdir(PROP, "hbtraces", clean=True)
+    c17.run_sessions(sessions, tdir, par=8)
+    files = sorted(glob.glob(os.path.join(tdir, "c17-*.ndjson")))
+    consumed, bad = vlib.validate_traces("HeartbeatTrace", "HeartbeatTrace.cfg", files, timeout=600, xmx="1g")
+    return len(sessions), bad, consumed
+
+
 def run(tier, seed, t0):
     vlib.build_harness(bin="vh_tune")
     mc = [
@@ -31,6 +51,12 @@ def run(tier, seed, t0):
     consumed, bad = vlib.validate_traces("TuneTrace", "TuneTrace.cfg", files, timeout=1500, xmx="3g")
     v = vlib.Verdict(PROP)
     v.absorb(bad)
+    # "heartbeat timing follows the announced interval": asymmetric client/server values observed in real
+    # time with C17's machinery (the timers must run on the NEGOTIATED value, not on either side's own)
+    hb_sessions, hb_bad, hb_records = heartbeat_follow_through(tier)
+    for b in hb_bad:
+        b = dict(b, label="C15:hb-interval/" + b["label"].split(":", 1)[1])
+        v.absorb([b])
     if summ["rank_combinations"] != len(cases):
         raise vlib.ToolError("driver ran %d of %d generated rank combinations" % (summ["rank_combinations"], len(cases)))
     vlib.write_evidence(
@@ -53,9 +79,12 @@ def run(tier, seed, t0):
         extra={"trace_records_validated": consumed, "rank_combinations": summ["rank_combinations"],
                "e2e_cases": summ["e2e_cases"], "aborted_cases": summ["aborted_cases"],
                "panics_seen": summ["panics"],
+               "heartbeat_follow_through_sessions": hb_sessions, "heartbeat_follow_through_records": hb_records,
                "exhaustive_dimension": "all rank combinations of the six tuning values (model and hook); "
                                        "end-to-end cases are a stratified sample"},
-        assumptions=["heartbeat timing (send interval, 2x detection) is not checked here: C17",
+        assumptions=["heartbeat timing in general is C17's; here only that the timers run on the NEGOTIATED value: "
+                     "real-time sessions with asymmetric client/server heartbeats (60/1, 1/60, 1/0, 0/1, 2/1) validated by "
+                     "HeartbeatTrace.tla, failures reported as C15:hb-interval/<C17 label>",
                      "u32 values travel as decimal strings plus per-record dense ranks (order-preserving, injective on "
                      "the values of the record); TLC asserts the encoding's consistency",
                      "a TuneOk frame_max of 2^31 or more is treated as not binding for frame lengths (no frame in a "
